@@ -403,6 +403,12 @@ class HTTPChannel(wasyncore.dispatcher):
 
         if self.total_outbufs_len > self.adj.outbuf_high_watermark:
             with self.outbuf_lock:
+                if not self.connected:
+                    # the main thread closed the channel before this thread
+                    # got the lock: there is nothing left to flush, and
+                    # nobody left to wake this thread up should it wait
+                    return
+
                 _, exception = self._flush_exception(self._flush_some, do_close=False)
 
                 if exception:
